@@ -8,6 +8,7 @@ package inmemory
 // forest must still have the contents and the spec root of its own model.
 
 import (
+	"github.com/ChainSafe/gossamer/internal/database"
 	"bytes"
 	"fmt"
 	"strings"
@@ -29,6 +30,8 @@ type c03T struct {
 	// writable side; the statement speaks of operations on snapshots seen "through the original",
 	// so the original is only observed (hashed, read) from then on, never mutated.
 	frozen bool
+	// persisted: WriteDirty was run on this trie (once is enough: a second run changes nothing)
+	persisted bool
 }
 
 func (c *c03T) sync() {
@@ -105,7 +108,7 @@ func TestVerif_C03(t *testing.T) {
 	defer r.Write()
 	maxTries := 3
 	depth := verifmc.Pick(5, 8)
-	r.Rule = fmt.Sprintf("BFS (depth %d) over histories on a forest of up to %d tries related by Snapshot (snapshots of snapshots included): put/delete/clearPrefix on keys 01,0100,0101 (from populated bases also 0102 and 10) with values 01 and a 40-byte value (inline in V0, hashed in V1; every second trie of the forest writes a different 40-byte value), raising any trie to V1, hashing any trie; states deduplicated on the full private dump of all tries including node sharing; after every operation every trie of the forest must have the contents and the independent spec root of its own model", depth, maxTries)
+	r.Rule = fmt.Sprintf("BFS (depth %d) over histories on a forest of up to %d tries related by Snapshot (snapshots of snapshots included): put/delete/clearPrefix on keys 01,0100,0101 (from populated bases also 0102 and 10) with values 01 and a 40-byte value (inline in V0, hashed in V1; every second trie of the forest writes a different 40-byte value), raising any trie to V1, hashing any trie, and (from the populated bases) storing any trie with WriteDirty so that its nodes are clean; states deduplicated on the full private dump of all tries including node sharing; after every operation every trie of the forest must have the contents and the independent spec root of its own model", depth, maxTries)
 	c03Run(r, "", depth, maxTries)
 	// populated bases (a branch with a leaf and a sub-branch below it; a valued branch; hashed or not):
 	// shapes that need 3-4 puts to build are then one step from the start
@@ -121,6 +124,19 @@ var c03Seeds = map[string][]vTrieOp{
 	"valued-branch":  {{kind: "put", k: []byte{0x01}, v: vVal(0x40, 40)}, {kind: "put", k: []byte{0x01, 0x00}, v: []byte{0x01}}, {kind: "put", k: []byte{0x01, 0x01}, v: []byte{0x01}}, {kind: "put", k: []byte{0x10}, v: []byte{0x01}}},
 }
 
+// c03NullDB swallows what WriteDirty persists: the step only matters because it marks every node
+// clean, which is the state of a block's trie after the node has stored it.
+type c03NullDB struct{}
+type c03NullBatch struct{}
+
+func (c03NullDB) NewBatch() database.Batch     { return c03NullBatch{} }
+func (c03NullBatch) Put(_, _ []byte) error     { return nil }
+func (c03NullBatch) Del(_ []byte) error        { return nil }
+func (c03NullBatch) Flush() error              { return nil }
+func (c03NullBatch) Close() error              { return nil }
+func (c03NullBatch) ValueSize() int            { return 0 }
+func (c03NullBatch) Reset()                    {}
+
 func c03Run(r *verifmc.Report, seed string, depth, maxTries int) {
 	keys := [][]byte{{0x01}, {0x01, 0x00}, {0x01, 0x01}, {0x01, 0x02}, {0x10}}
 	vals := [][]byte{{0x01}, vVal(0x40, 40)}
@@ -129,7 +145,7 @@ func c03Run(r *verifmc.Report, seed string, depth, maxTries int) {
 	}
 	h := &verifmc.Hist[*c03Forest]{
 		Fresh: func() *c03Forest {
-			base := &c03T{&vTrieState{t: NewEmptyTrie(), m: ref.OMap{}, v: trie.V0}, map[string]bool{}, false}
+			base := &c03T{&vTrieState{t: NewEmptyTrie(), m: ref.OMap{}, v: trie.V0}, map[string]bool{}, false, false}
 			name := strings.TrimSuffix(seed, "/hashed")
 			for _, o := range c03Seeds[name] {
 				if d := vApplyTrieOp(base.vTrieState, o); d != "" {
@@ -148,6 +164,10 @@ func c03Run(r *verifmc.Report, seed string, depth, maxTries int) {
 		Ops: func(f *c03Forest) []verifmc.Op {
 			var ops []verifmc.Op
 			for i, s := range f.ts {
+				if seed != "" && !s.persisted {
+					// (from the populated bases only) the trie is stored as a block's state: all its nodes become clean
+					ops = append(ops, c03Op{i, vTrieOp{kind: "persist"}})
+				}
 				if s.frozen {
 					ops = append(ops, c03Op{i, vTrieOp{kind: "hash"}})
 					if len(f.ts) < maxTries {
@@ -193,8 +213,14 @@ func c03Run(r *verifmc.Report, seed string, depth, maxTries int) {
 				for k, v := range s.hashed {
 					hc[k] = v
 				}
-				f.ts = append(f.ts, &c03T{&vTrieState{t: s.t.Snapshot(), m: s.m.Clone(), v: s.v}, hc, false})
+				f.ts = append(f.ts, &c03T{&vTrieState{t: s.t.Snapshot(), m: s.m.Clone(), v: s.v}, hc, false, false})
 				s.frozen = true
+				return ""
+			case "persist":
+				if err := s.t.WriteDirty(c03NullDB{}); err != nil {
+					return "WriteDirty: unexpected error " + err.Error()
+				}
+				s.persisted = true
 				return ""
 			case "hash":
 				// fills the Merkle-value caches of (possibly shared) nodes; compared in Check
